@@ -1,5 +1,4 @@
 import PV.Model.HashTable
-import PV.Props.C15
 import PV.Driver.Util
 /-! driver for the hash-table / list family (C15).  One answer line per op.
     The answer is the *model's*; when the reference map (spec) answers differently the line is
